@@ -300,6 +300,14 @@ pub fn strings() -> Vec<String> {
             "\r\n",
             "\r",
             "line\r\nline]]>\r",
+            // the edges of what XML 1.0 can carry: first and last code point of every range of the
+            // Char production, noncharacters that are nevertheless legal XML (U+FDD0, U+nFFFE,
+            // U+nFFFF on the astral planes) and the last code point of all
+            "\u{20}\u{d7ff}\u{e000}\u{fffd}\u{10000}\u{10ffff}",
+            "\u{fdd0}\u{fdef}",
+            "\u{1fffe}\u{1ffff}",
+            "\u{10fffe}",
+            "\u{7f}\u{80}\u{85}\u{9f}\u{a0}\u{2028}\u{2029}\u{feff}",
         ]
         .iter()
         .map(|s| s.to_string()),
@@ -367,4 +375,23 @@ pub fn group_proto(coords: usize, mask: usize) -> Vec<Rec> {
 pub fn group_mask_valid(coords: usize, mask: usize) -> bool {
     let dep = |flag: usize, base: usize| mask & flag == 0 || mask & base != 0;
     dep(8, 4) && dep(32, 16) && dep(512, 256) && (mask & 1 == 0 || coords != 1) && (mask & 2 == 0 || coords != 0)
+}
+
+
+/// Pose catalogue: 5 unit rotations (identity, about each axis, general) x every zero / non-zero
+/// pattern of the translation, plus negative zeros: a member that is left out, swapped or tested
+/// in place of another one shows for at least one of them.
+pub fn poses() -> Vec<e57spec::model::Pose> {
+    let h = std::f64::consts::FRAC_1_SQRT_2;
+    let rots = [[1.0, 0.0, 0.0, 0.0], [h, h, 0.0, 0.0], [h, 0.0, h, 0.0], [h, 0.0, 0.0, h], [0.5, 0.5, -0.5, 0.5]];
+    let mut v = Vec::new();
+    for rot in rots {
+        for mask in 0..8 {
+            let t = [if mask & 1 != 0 { 1.5 } else { 0.0 }, if mask & 2 != 0 { -2.25 } else { 0.0 }, if mask & 4 != 0 { 3.125 } else { 0.0 }];
+            v.push(e57spec::model::Pose { rot, trans: t });
+        }
+    }
+    v.push(e57spec::model::Pose { rot: [1.0, -0.0, 0.0, -0.0], trans: [-0.0, 0.0, -0.0] });
+    v.push(e57spec::model::Pose { rot: [0.0, 0.0, 0.0, 1.0], trans: [1e-300, -1e300, 5e-324] });
+    v
 }
